@@ -140,8 +140,19 @@ def run_fields(root=None, fields="BHJM"):
             try:
                 out = it.call_func(f, [], dict(field=Const(field), **{k: v for k, v in bind.items()}), mod.funcs[fname])
             except Unsupported as e:
-                res["error"] = f"{e} [stack {it.callstack}]"
-                out = None
+                # a construct outside the strict fragment: interpret this entry again in tolerant mode (unmodelled statements are skipped,
+                # the typed remainder is still judged) and report the entry as undecided instead of failing the whole analysis
+                why = f"{e} [stack {it.callstack}]"
+                dom = LinDimDomain(lit_annot=LIT_ANNOT)
+                dom.repo_summaries = dict(SUMMARIES)
+                it = Interp(arepo, dom)
+                it.tolerant = True
+                try:
+                    out = it.call_func(f, [], dict(field=Const(field), **{k: v for k, v in bind.items()}), mod.funcs[fname])
+                    res["undecided"] = why
+                except (Unsupported, BudgetExceeded, RecursionError) as e2:
+                    res["error"] = f"{e2} [stack {it.callstack}]"
+                    out = None
             if isinstance(out, Seq):
                 c = dom.collapse(out, None)
                 out = c if c is not None else out
@@ -150,6 +161,8 @@ def run_fields(root=None, fields="BHJM"):
             # a B/H result that is identically the polymorphic zero is not acceptable for exp != None
             if exp is not None and isinstance(out, D) and out.poly:
                 ok = False
+            if res.get("undecided") and not isinstance(out, D):
+                ok = True          # return value not followed in tolerant mode: nothing claimed about it
             res.update({"out": repr(out), "dim": out.dim if isinstance(out, D) and not out.poly else None,
                         "poly": isinstance(out, D) and out.poly, "la": isinstance(out, D) and out.la, "expected": exp, "ok": ok,
                         "lin": lin_of(out) if out is not None else None, "nexpr": dom.nexpr, "maxexp": dom.maxexp,
